@@ -13,18 +13,18 @@
                       database of the sequential run; a partition's run is independent of
                       the other partitions' writes   C11_any_schedule, C11_partition_reads_local (full)
      gen_nodes_path : node store = nodes of the state trie (+) nodes of the storage tries
-                      PARTIAL: proved are the writes of assembleRoot (the root node at the
-                      empty path; the orphan at [p] deleted iff the canonical trie has no node
-                      there: C11_gen_root_partial_fold / _branch) and that every node a
-                      partition writes lies under its own nibble / its own accounts
-                      (C11_partition_writes_commute); NOT proved: that the builders' callback
-                      emissions are exactly the canonical node sets (Go oracle + correspondence).
+                      C11_gen_nodes_path (full, path scheme, store level: the trie-node key space is
+                      exactly the canonical node set, every node once, nothing else);
+                      C11_gen_node_writes (both schemes, write level: puts = canonical nodes + at
+                      most one orphan, which is deleted afterwards); C11_builder_emits_exact (the
+                      stack-trie callback receives exactly the canonical node set of the trie built)
    [corrected flat state] = storage of non-existent accounts removed, every account's
    root replaced by the root of its actual storage (stale entries re-encoded in slim form,
    all others byte-identical).
    The component theorems (builder, fold, branch, erasure) are kept: C11_gen_root is
    their composition with the merge walk and Canon.v's canon_unique. *)
-From GV Require Import Lib.Tactics Lib.Interleave Trie.Hex Trie.Node Trie.Ops Trie.Hash Trie.OpsProofs Trie.Canon Trie.Stack Trie.StackProofs Trie.ProofProofs Trie.Commit Trie.Generate Trie.GenerateProofs Trie.GenerateAssemble Trie.GenerateAssemble2 Trie.GenerateSched Trie.GenerateWalk Trie.GenerateWalk2 Trie.GenerateRoot Trie.GenerateRoot2 Trie.GenerateRoot3 Trie.GenerateFlat2 Trie.GenerateDisjoint2 Trie.GenerateLocal2 Trie.GenerateExample Trie.GenerateExample2.
+From Coq Require Import Permutation.
+From GV Require Import Lib.Tactics Lib.Interleave Trie.Hex Trie.Node Trie.Ops Trie.Hash Trie.OpsProofs Trie.Canon Trie.Stack Trie.StackProofs Trie.ProofProofs Trie.Commit Trie.CommitTracer Trie.Generate Trie.GenerateProofs Trie.GenerateAssemble Trie.GenerateAssemble2 Trie.GenerateSched Trie.GenerateWalk Trie.GenerateWalk2 Trie.GenerateRoot Trie.GenerateRoot2 Trie.GenerateRoot3 Trie.GenerateFlat2 Trie.GenerateDisjoint2 Trie.GenerateLocal2 Trie.GenerateNodes Trie.GenerateNodes4 Trie.GenerateNodes5 Trie.GenerateNodes6 Trie.GenerateNodes9 Trie.GenerateNodes10 Trie.GenerateNodes11 Trie.GenerateNodes12 Trie.GenerateExample Trie.GenerateExample2.
 Local Open Scope N_scope.
 
 (* the callback-instrumented stack trie of the model computes exactly what the
@@ -171,6 +171,51 @@ Theorem C11_gen_flat : forall H, (forall x, length (H x) = 32%nat) ->
 Proof. exact gen_flat. Qed.
 Print Assumptions C11_gen_flat.
 
+(* gen_nodes_path.  (i) The builder: everything the onTrieNode callback receives
+   while ascending equal-length keys are fed and Hash() is called is, as a
+   multiset, exactly the canonical node set of the trie built ([nodes_of H [] t]:
+   every node whose encoding has >= 32 bytes, and the root, each under its path). *)
+Theorem C11_builder_emits_exact : forall H, (forall x, length (H x) = 32%nat) ->
+  forall kvs L, (1 <= L)%nat ->
+    Forall (fun kv => nibbles (fst kv) /\ length (fst kv) = L /\ snd kv <> []) kvs -> hasc [] kvs ->
+    exists s em t h emf, hfeed H stack_new kvs = Some (s, em) /\ st_root_e H s = TOk (h, emf) /\
+      canon t /\ (forall hk, lk t hk = apply_ops (fun _ => None) (hops kvs) hk) /\ hash_root H t = Some h /\
+      Permutation (em ++ emf) (nodes_of H [] t).
+Proof. exact builder_emits. Qed.
+Print Assumptions C11_builder_emits_exact.
+
+(* (ii) Both schemes, write level: the trie-node puts of a successful run are, as a
+   multiset, the canonical node sets of the state trie and of every account's
+   storage trie ([spec_nodes], keyed as rawdb keys them) plus at most one orphan
+   (the subtree root a lone partition left at [p] when it was a short node); no
+   deletion precedes a put, and exactly the orphan is deleted afterwards. *)
+Theorem C11_gen_node_writes : forall H, (forall x, length (H x) = 32%nat) ->
+  forall sc expected db st, wf_db db -> small_state H db ->
+    fst (generate H sc expected db) = GOk st ->
+    exists pw dw orphan,
+      snd (generate H sc expected db) = apply_ws db (pw ++ dw) /\
+      ndels pw = [] /\ nws dw = [] /\ (length orphan <= 1)%nat /\
+      Permutation (nws pw) (spec_nodes H sc db ++ orphan) /\
+      ndels dw = map fst orphan /\
+      (sc = PathScheme -> forall x, In x orphan ->
+         (exists path, fst x = 65 :: path) /\
+         ~ In (fst x) (map fst (nk H sc zero_hash (nodes_of H [] (state_trie H db))))).
+Proof. exact gen_node_writes. Qed.
+Print Assumptions C11_gen_node_writes.
+
+(* (iii) gen_nodes_path, in full (path scheme, store level): starting without trie
+   nodes and without an account of hash zero, the trie-node key space after a
+   successful run is exactly [spec_nodes]: every node of the state trie and of
+   every storage trie once, nothing else (no node outside the canonical tries). *)
+Theorem C11_gen_nodes_path : forall H, (forall x, length (H x) = 32%nat) ->
+  forall expected db st, wf_db db -> small_state H db ->
+    g_nodes db = [] -> ~ In zero_hash (map fst (g_accts db)) ->
+    fst (generate H PathScheme expected db) = GOk st ->
+    Permutation (g_nodes (snd (generate H PathScheme expected db))) (spec_nodes H PathScheme db) /\
+    sorted (g_nodes (snd (generate H PathScheme expected db))).
+Proof. exact gen_nodes_path. Qed.
+Print Assumptions C11_gen_nodes_path.
+
 (* schedules, discharged for the write lists generate_partition really produces:
    writes of different partitions commute (path scheme: provided no account has
    the all-zero hash; hash scheme: provided equal hashes carry equal blobs) ... *)
@@ -211,5 +256,6 @@ Print Assumptions C11_other_partition_writes.
    root, dangling slot) on which generate succeeds against the root computed by
    ordinary insertion, fixes the flat state and deletes the orphan at [3]; it meets
    the hypotheses of C11_gen_root / C11_gen_flat *)
-Example C11_nonvacuous : wf_db ex_db /\ small_state toy_hash ex_db /\ ex_check = true.
-Proof. exact (conj ex_wf (conj ex_small ex_check_true)). Qed.
+Example C11_nonvacuous : wf_db ex_db /\ small_state toy_hash ex_db /\
+  (g_nodes ex_db = [] /\ ~ In zero_hash (map fst (g_accts ex_db))) /\ ex_check = true.
+Proof. exact (conj ex_wf (conj ex_small (conj ex_nozero ex_check_true))). Qed.
